@@ -22,6 +22,17 @@ pub const TOL: f64 = 1e-9;
 /// multi-threaded solves are issued one at a time while everything around them runs in parallel.
 pub static POOL_GATE: Mutex<()> = Mutex::new(());
 
+/// Run a multi-threaded solve one at a time and off the calling thread. The caller may be a rayon
+/// worker: if it called the solver's own pool directly it would keep stealing jobs of its pool
+/// while it waits (nesting solves); a plain join does not.
+pub fn gated<R: Send>(func: impl FnOnce() -> R + Send) -> R {
+    let _gate = POOL_GATE.lock().unwrap_or_else(|e| e.into_inner());
+    std::thread::scope(|scope| match scope.spawn(func).join() {
+        Ok(res) => res,
+        Err(payload) => std::panic::resume_unwind(payload),
+    })
+}
+
 fn num(x: f64) -> Value {
     if x.is_finite() {
         json!(x)
